@@ -125,6 +125,13 @@ def cases(tier, seed):
             if d2:
                 c2['delay'] = d2
             add({'e': 2, 'i': 2}, [c1, c2], 'parallel_connections')
+    # one ndarray object used by several connections, two of which are parallel (their sum must not be written into it)
+    for W2 in ([[0.5, 0.0], [0.0, -1.0]], [[1.0, 2.0], [0.0, 0.0]]):
+        W1 = [[0.0, 2.0], [1.0, 0.0]]
+        for order in ((0, 1, 2), (2, 0, 1), (0, 2, 1)):
+            cs = [{'src': 'e', 'tgt': 'i', 'W': W1}, {'src': 'e', 'tgt': 'i', 'W': W2}, {'src': 'e', 'tgt': 'e', 'W': W1}]
+            add({'e': 2, 'i': 2}, [cs[k] for k in order], 'shared_weight_array')
+            out[-1]['share_arrays'] = True
     # a scalar entry in PopulationTemplate.params next to per-unit lists (broadcast to all units)
     for W in list(mats(2, 3, full=False))[2:8]:
         for sc in (['e'], ['i'], ['e', 'i']):
@@ -196,6 +203,7 @@ def build_pop(case):
         pops[pop] = PopulationTemplate(name=pop, node=NodeTemplate(f'node_{pop}', operators=[ops[op]]), n=n,
                                        params={k: (list(v) if isinstance(v, list) else v) for k, v in pop_params(pop, n).items()})
     conns = []
+    shared = {}    # with case['share_arrays']: connections with equal weights are given the SAME ndarray object
     for c in case['conns']:
         s, t = c['src'], c['tgt']
         kw = {}
@@ -210,8 +218,11 @@ def build_pop(case):
             kw['delays'] = c['delay']
         if c.get('spread'):
             kw['spread'] = c['spread']
+        W = np.asarray(c['W'], dtype=float)
+        if case.get('share_arrays'):
+            W = shared.setdefault(json.dumps(c['W']), W)
         conns.append(Connectivity(source=f'{s}/{POPOP[s][0]}/{POPOP[s][1]}', target=f'{t}/{POPOP[t][0]}/{POPOP[t][2]}',
-                                  weights=np.asarray(c['W'], dtype=float), **kw))
+                                  weights=W, **kw))
     return CircuitTemplate('popnet', populations=pops, connections=conns)
 
 
